@@ -121,8 +121,8 @@ func init() {
 				if fn == nil || fn.Pkg() == nil {
 					return true
 				}
-				full := fn.Pkg().Path() + "." + fn.Name()
-				if !(strings.HasPrefix(full, "fmt.Print") || strings.HasPrefix(full, "fmt.Fprint") || fn.Name() == "WriteString" || fn.Name() == "writeBufToFile") {
+				full := fn.Pkg().Path() + "." + core.RefName(fn)
+				if !(strings.HasPrefix(full, "fmt.Print") || strings.HasPrefix(full, "fmt.Fprint") || core.RefName(fn) == "WriteString" || core.RefName(fn) == "writeBufToFile") {
 					return true
 				}
 				nPrint++
@@ -131,7 +131,7 @@ func init() {
 				for _, x := range ords {
 					o |= x
 				}
-				r.Check(o == ordertaint.Det, "C08-root", fmt.Sprintf("%s: %s prints order-independent values", fd.Key(), fn.Name()), p.Pos(c.Pos()), "argument taint: "+ordStr(o), "a value printed by the CLI is "+ordStr(o))
+				r.Check(o == ordertaint.Det, "C08-root", fmt.Sprintf("%s: %s prints order-independent values", fd.Key(), core.RefName(fn)), p.Pos(c.Pos()), "argument taint: "+ordStr(o), "a value printed by the CLI is "+ordStr(o))
 				return true
 			})
 		}
